@@ -150,6 +150,12 @@ func tryQueueReloadRequest(
 			log.Warnln("[Reload] Reload already in progress or handoff pending; ignoring this signal")
 		}
 		restoreRejectedReloadProgress(reloadActive, false)
+		if !reloadPending.Load() {
+			// The request in progress settled while we were reporting busy, so its release
+			// may already have looked for a busy report to clear. Do not leave ours behind:
+			// `dae reload` refuses to signal while the progress file says busy.
+			clearRejectedReloadProgress()
+		}
 		return false
 	}
 	beginReloadProxyFailureSuppression()
